@@ -1,5 +1,6 @@
 import Marwood.Vm.Verify
 import Marwood.Lemmas.TCall
+import Marwood.Lemmas.SimErase
 /-!
 # WF-stack: the frame-chain invariant of the machine, relative to the bytecode verifier
 
@@ -11,28 +12,57 @@ frame will restore when it returns (a ghost: where the frame starts, saved `ep`,
 
 Frame layout (run.rs CALL / ENTER): `args…, ArgumentCount(n), EnvironmentPointer,
 InstructionPointer, BasePointer`, `bp` = index of the last argument, temporaries from `bp + 5`.
+
+**Values.** The relation is parametric in `V : VCell → Prop`, "the cell holds a value": a temporary the
+verifier types `val` satisfies `V`, so do the cells of the argument block under a CALL / TCALL, and the
+argument cells of every frame; a frame of code object `t` has at least `argNeed t.bc` argument cells, so
+every `BasePointerOffset` operand of its code addresses one of them. `V` is a field of the heap laws
+(`CodeLaws.Val`, `Lemmas/StackWFLaws.lean`): `IsValue` (= `Lemmas.Sim.plainGlob`, the value notion of the
+heap-simulation invariant `GoodI`) for the concrete machine, `fun _ => True` for the toy instances.
 -/
 namespace Marwood.Vm
 open Verify Stack
 
 variable {H : Type}
 
+/-- **a first-class value**: a pointer, or a cell that mentions no heap address — the notion of the
+    heap-simulation invariant (`GoodI.accv`, `Plain.globals`, the value-read clauses of `StackDisc`) -/
+def IsValue (v : VCell) : Prop := Lemmas.Sim.plainGlob v = true
+
+/-- the verifier's executable `isVal` is that notion -/
+theorem isVal_eq_plainGlob (v : VCell) : Verify.isVal v = Lemmas.Sim.plainGlob v := by
+  cases v <;> rfl
+
+theorem isValue_of_isVal {v : VCell} (h : Verify.isVal v = true) : IsValue v := by
+  unfold IsValue; rw [← isVal_eq_plainGlob]; exact h
+
+theorem isValue_ptr (a : Nat) : IsValue (.ptr a) := rfl
+theorem isValue_argc (n : Nat) : IsValue (.argc n) := rfl
+
 /-- what a cell typed `t` may hold -/
-def cellOk : ACell → VCell → Prop
+def cellOk (V : VCell → Prop) : ACell → VCell → Prop
   | .any, _ => True
-  | .argc n, v => v = .argc n
+  | .val, v => V v
+  | .argc n, v => v = .argc n ∧ V v
+
+theorem cellOk.val_of_isV {V : VCell → Prop} {t : ACell} {v : VCell} (ht : t.isV = true) (h : cellOk V t v) : V v := by
+  cases t with
+  | any => cases ht
+  | val => exact h
+  | argc n => exact h.2
 
 /-- the temporaries `a` (top first) are the cells `lo+1 … top` -/
-def MatchAt : List ACell → (Nat → VCell) → Nat → Nat → Prop
+def MatchAt (V : VCell → Prop) : List ACell → (Nat → VCell) → Nat → Nat → Prop
   | [], _, top, lo => top = lo
-  | t :: a, f, top, lo => lo < top ∧ cellOk t (f top) ∧ MatchAt a f (top - 1) lo
+  | t :: a, f, top, lo => lo < top ∧ cellOk V t (f top) ∧ MatchAt V a f (top - 1) lo
 
 /-- the cells `lo+1 … top` are what the abstract state says. At a CALL/TCALL the argument block is
-    characterised at run time: *some* `argc m` on top of `m` cells on top of the static rest. -/
-def MatchSt : AState → (Nat → VCell) → Nat → Nat → Prop
+    characterised at run time: *some* `argc m` on top of `m` **values** on top of the static rest. -/
+def MatchSt (V : VCell → Prop) : AState → (Nat → VCell) → Nat → Nat → Prop
   | .pre, _, _, _ => False
-  | .body a, f, top, lo => MatchAt a f top lo
-  | .call a, f, top, lo => ∃ m, f top = .argc m ∧ lo + m + 1 ≤ top ∧ MatchAt a f (top - 1 - m) lo
+  | .body a, f, top, lo => MatchAt V a f top lo
+  | .call a, f, top, lo => ∃ m, f top = .argc m ∧ lo + m + 1 ≤ top ∧
+      (∀ i, top - 1 - m < i → i < top → V (f i)) ∧ MatchAt V a f (top - 1 - m) lo
 
 abbrev Typing := Nat → Option LamTy
 
@@ -43,41 +73,50 @@ structure FDesc where
   sip : VCell
   sbp : Nat
 
-inductive Frames (T : Typing) (e : Nat) (f : Nat → VCell) :
+inductive Frames (V : VCell → Prop) (T : Typing) (e : Nat) (f : Nat → VCell) :
     Nat → Nat → Nat → Nat → List FDesc → Prop
   /-- the entry frame: entry code (`PUSHIMM argc0; MOVIMM λ acc; CALL; HALT`), temporaries from `e+1` -/
   | entry {top bp l o : Nat} {t : LamTy} {st : AState} :
-      T l = some t → t.entry = true → stateAt t.tm o = some st → MatchSt st f top e →
-      Frames T e f top bp l o []
-  /-- a complete frame: header intact at `bp+1 … bp+4`, temporaries as typed, and below the first
-      argument the caller's frame in the state it will be in when this frame returns -/
+      T l = some t → t.entry = true → stateAt t.tm o = some st → MatchSt V st f top e →
+      Frames V T e f top bp l o []
+  /-- a complete frame: header intact at `bp+1 … bp+4`, temporaries as typed, at least as many argument
+      cells as the code addresses, each holding a value, and below the first argument the caller's frame
+      in the state it will be in when this frame returns (never a prologue instruction) -/
   | frame {top bp l o : Nat} {t : LamTy} {st : AState} {n ep' l' o' bp' : Nat} {K : List FDesc} :
-      T l = some t → t.entry = false → stateAt t.tm o = some st → MatchSt st f top (bp + 4) →
+      T l = some t → t.entry = false → stateAt t.tm o = some st → MatchSt V st f top (bp + 4) →
       f (bp + 1) = .argc n → f (bp + 2) = .envPtr ep' → f (bp + 3) = .instrPtr l' o' →
       f (bp + 4) = .basePtr bp' → n ≤ bp →
-      Frames T e f (bp - n) bp' l' o' K →
-      Frames T e f top bp l o (⟨bp + 1 - n, .envPtr ep', .instrPtr l' o', bp'⟩ :: K)
+      argNeed t.bc ≤ n → (∀ i, bp - n < i → i ≤ bp → V (f i)) →
+      (∀ t', T l' = some t' → stateAt t'.tm o' ≠ some .pre) →
+      Frames V T e f (bp - n) bp' l' o' K →
+      Frames V T e f top bp l o (⟨bp + 1 - n, .envPtr ep', .instrPtr l' o', bp'⟩ :: K)
   /-- between CALL/TCALL and the callee's ENTER: `args, argc, ep, ip` pushed, `bp` still the caller's -/
   | pre {top bp l o : Nat} {t : LamTy} {n ep' l' o' : Nat} {K : List FDesc} :
       T l = some t → t.entry = false → stateAt t.tm o = some .pre →
       n + 3 ≤ top → f top = .instrPtr l' o' → f (top - 1) = .envPtr ep' → f (top - 2) = .argc n →
-      Frames T e f (top - 3 - n) bp l' o' K →
-      Frames T e f top bp l o (⟨top - 2 - n, .envPtr ep', .instrPtr l' o', bp⟩ :: K)
+      (∀ i, top - 3 - n < i → i ≤ top - 3 → V (f i)) →
+      (∀ t', T l' = some t' → stateAt t'.tm o' ≠ some .pre) →
+      Frames V T e f (top - 3 - n) bp l' o' K →
+      Frames V T e f top bp l o (⟨top - 2 - n, .envPtr ep', .instrPtr l' o', bp⟩ :: K)
 
 /-- WF-stack for a machine state -/
-structure WF (T : Typing) (e : Nat) (s : St H) (K : List FDesc) : Prop where
+structure WF (V : VCell → Prop) (T : Typing) (e : Nat) (s : St H) (K : List FDesc) : Prop where
   cap : s.stack.sp < s.stack.cells.length
-  frames : Frames T e s.stack.cellAt s.stack.sp s.bp s.ipL s.ipO K
+  frames : Frames V T e s.stack.cellAt s.stack.sp s.bp s.ipL s.ipO K
 
-/-- a continuation object is the snapshot of a WF state -/
-structure ContWF (T : Typing) (e : Nat) (c : Cont) (K : List FDesc) : Prop where
+/-- a continuation object is the snapshot of a WF state at the return point of a call (never inside a
+    procedure prologue) -/
+structure ContWF (V : VCell → Prop) (T : Typing) (e : Nat) (c : Cont) (K : List FDesc) : Prop where
   cap : c.stack.sp < c.stack.cells.length
-  frames : Frames T e c.stack.cellAt c.stack.sp c.bp c.ipL c.ipO K
+  frames : Frames V T e c.stack.cellAt c.stack.sp c.bp c.ipL c.ipO K
+  body : ∀ t, T c.ipL = some t → stateAt t.tm c.ipO ≠ some .pre
 
 /-! ## basic facts -/
 
+variable {V : VCell → Prop}
+
 theorem MatchAt.top_eq {a : List ACell} {f : Nat → VCell} : ∀ {top lo : Nat},
-    MatchAt a f top lo → top = lo + a.length := by
+    MatchAt V a f top lo → top = lo + a.length := by
   induction a with
   | nil => intro top lo h; simpa [MatchAt] using h
   | cons t a ih =>
@@ -87,7 +126,7 @@ theorem MatchAt.top_eq {a : List ACell} {f : Nat → VCell} : ∀ {top lo : Nat}
     simp only [List.length_cons]; omega
 
 theorem MatchAt.congr {a : List ACell} {f f' : Nat → VCell} : ∀ {top lo : Nat},
-    (∀ i, i ≤ top → f' i = f i) → MatchAt a f top lo → MatchAt a f' top lo := by
+    (∀ i, i ≤ top → f' i = f i) → MatchAt V a f top lo → MatchAt V a f' top lo := by
   induction a with
   | nil => intro top lo _ h; exact h
   | cons t a ih =>
@@ -96,8 +135,22 @@ theorem MatchAt.congr {a : List ACell} {f f' : Nat → VCell} : ∀ {top lo : Na
     refine ⟨h1, ?_, ih (fun i hi => hf i (by omega)) h3⟩
     rw [hf top (Nat.le_refl _)]; exact h2
 
+/-- a weaker value notion is implied -/
+theorem MatchAt.weaken {V' : VCell → Prop} (hV : ∀ v, V v → V' v) {a : List ACell} {f : Nat → VCell} :
+    ∀ {top lo : Nat}, MatchAt V a f top lo → MatchAt V' a f top lo := by
+  induction a with
+  | nil => intro top lo h; exact h
+  | cons t a ih =>
+    intro top lo h
+    obtain ⟨h1, h2, h3⟩ := h
+    refine ⟨h1, ?_, ih h3⟩
+    cases t with
+    | any => trivial
+    | val => exact hV _ h2
+    | argc n => exact ⟨h2.1, hV _ h2.2⟩
+
 theorem MatchAt.drop {f : Nat → VCell} : ∀ {a : List ACell} {n top lo : Nat},
-    MatchAt a f top lo → n ≤ a.length → MatchAt (a.drop n) f (top - n) lo := by
+    MatchAt V a f top lo → n ≤ a.length → MatchAt V (a.drop n) f (top - n) lo := by
   intro a n
   induction n generalizing a with
   | zero => intro top lo h _; simpa using h
@@ -112,13 +165,31 @@ theorem MatchAt.drop {f : Nat → VCell} : ∀ {a : List ACell} {n top lo : Nat}
       have e : top - (n + 1) = top - 1 - n := by omega
       rw [e]; exact this
 
+/-- the `n` topmost cells, when all typed, hold values -/
+theorem MatchAt.take_vals {f : Nat → VCell} : ∀ {a : List ACell} {n top lo : Nat},
+    MatchAt V a f top lo → n ≤ a.length → (a.take n).all ACell.isV = true →
+    ∀ i, top - n < i → i ≤ top → V (f i) := by
+  intro a n
+  induction n generalizing a with
+  | zero => intro top lo _ _ _ i h1 h2; omega
+  | succ n ih =>
+    intro top lo h hn hall i h1 h2
+    cases a with
+    | nil => simp at hn
+    | cons t a =>
+      obtain ⟨hlt, hc, h3⟩ := h
+      simp only [List.take_succ_cons, List.all_cons, Bool.and_eq_true] at hall
+      by_cases hi : i = top
+      · subst hi; exact hc.val_of_isV hall.1
+      · exact ih h3 (by simpa using hn) hall.2 i (by omega) (by omega)
+
 theorem MatchAt.push {a : List ACell} {f f' : Nat → VCell} {top lo : Nat} {t : ACell}
-    (h : MatchAt a f top lo) (hf : ∀ i, i ≤ top → f' i = f i) (ht : cellOk t (f' (top + 1))) :
-    MatchAt (t :: a) f' (top + 1) lo := by
+    (h : MatchAt V a f top lo) (hf : ∀ i, i ≤ top → f' i = f i) (ht : cellOk V t (f' (top + 1))) :
+    MatchAt V (t :: a) f' (top + 1) lo := by
   have := h.top_eq
   exact ⟨by omega, ht, by simpa using h.congr hf⟩
 
-theorem MatchSt.lo_le {st : AState} {f : Nat → VCell} {top lo : Nat} (h : MatchSt st f top lo) :
+theorem MatchSt.lo_le {st : AState} {f : Nat → VCell} {top lo : Nat} (h : MatchSt V st f top lo) :
     lo ≤ top := by
   cases st with
   | pre => exact h.elim
@@ -126,18 +197,28 @@ theorem MatchSt.lo_le {st : AState} {f : Nat → VCell} {top lo : Nat} (h : Matc
   | call a => obtain ⟨m, _, h2, _⟩ := h; omega
 
 theorem MatchSt.congr {st : AState} {f f' : Nat → VCell} {top lo : Nat}
-    (hf : ∀ i, i ≤ top → f' i = f i) (h : MatchSt st f top lo) : MatchSt st f' top lo := by
+    (hf : ∀ i, i ≤ top → f' i = f i) (h : MatchSt V st f top lo) : MatchSt V st f' top lo := by
   cases st with
   | pre => exact h
   | body a => exact MatchAt.congr hf h
   | call a =>
-    obtain ⟨m, h1, h2, h3⟩ := h
+    obtain ⟨m, h1, h2, hv, h3⟩ := h
     exact ⟨m, by rw [hf top (Nat.le_refl _)]; exact h1, h2,
+      fun i hi1 hi2 => by rw [hf i (by omega)]; exact hv i hi1 hi2,
       MatchAt.congr (fun i hi => hf i (by omega)) h3⟩
+
+theorem MatchSt.weaken {V' : VCell → Prop} (hV : ∀ v, V v → V' v) {st : AState} {f : Nat → VCell}
+    {top lo : Nat} (h : MatchSt V st f top lo) : MatchSt V' st f top lo := by
+  cases st with
+  | pre => exact h
+  | body a => exact MatchAt.weaken hV h
+  | call a =>
+    obtain ⟨m, h1, h2, hv, h3⟩ := h
+    exact ⟨m, h1, h2, fun i a b => hV _ (hv i a b), MatchAt.weaken hV h3⟩
 
 /-- the verifier's `flowsTo` is sound for the run-time matching relation -/
 theorem flowsTo_sound {x : List ACell} {s : Option AState} {f : Nat → VCell} {top lo : Nat}
-    (hfl : flowsTo x s = true) (h : MatchAt x f top lo) : ∃ st, s = some st ∧ MatchSt st f top lo := by
+    (hfl : flowsTo x s = true) (h : MatchAt V x f top lo) : ∃ st, s = some st ∧ MatchSt V st f top lo := by
   cases s with
   | none => simp [flowsTo] at hfl
   | some st =>
@@ -153,58 +234,95 @@ theorem flowsTo_sound {x : List ACell} {s : Option AState} {f : Nat → VCell} {
       | cons c r =>
         cases c with
         | any => simp [flowsTo] at hfl
+        | val => simp [flowsTo] at hfl
         | argc n =>
-          simp only [flowsTo, decide_eq_true_eq] at hfl
-          obtain ⟨hn, ha⟩ := hfl
+          simp only [flowsTo, Bool.and_eq_true, decide_eq_true_eq] at hfl
+          obtain ⟨⟨hn, ha⟩, hall⟩ := hfl
           obtain ⟨h1, h2, h3⟩ := h
           have hb := h3.top_eq
-          refine ⟨_, rfl, n, h2, by omega, ?_⟩
-          rw [ha]
-          exact h3.drop hn
+          refine ⟨_, rfl, n, h2.1, by omega, ?_, ?_⟩
+          · intro i hi1 hi2
+            exact h3.take_vals hn hall i (by omega) (by omega)
+          · rw [ha]
+            exact h3.drop hn
 
 theorem Frames.congr {T : Typing} {e : Nat} {f f' : Nat → VCell} {top bp l o : Nat} {K : List FDesc}
-    (h : Frames T e f top bp l o K) : (∀ i, i ≤ top → f' i = f i) → Frames T e f' top bp l o K := by
+    (h : Frames V T e f top bp l o K) : (∀ i, i ≤ top → f' i = f i) → Frames V T e f' top bp l o K := by
   induction h with
   | entry h1 h2 h3 h4 => intro hf; exact .entry h1 h2 h3 (h4.congr hf)
-  | @frame top bp l o t st n ep' l' o' bp' K h1 h2 h3 h4 h5 h6 h7 h8 h9 _ ih =>
+  | @frame top bp l o t st n ep' l' o' bp' K h1 h2 h3 h4 h5 h6 h7 h8 h9 hnd hav hnp _ ih =>
     intro hf
     have hle := h4.lo_le
     have r := Frames.frame (f := f') h1 h2 h3 (h4.congr hf)
       (by rw [hf _ (by omega)]; exact h5) (by rw [hf _ (by omega)]; exact h6)
-      (by rw [hf _ (by omega)]; exact h7) (by rw [hf _ (by omega)]; exact h8) h9
+      (by rw [hf _ (by omega)]; exact h7) (by rw [hf _ (by omega)]; exact h8) h9 hnd
+      (fun i a b => by rw [hf _ (by omega)]; exact hav i a b) hnp
       (ih (fun i hi => hf i (by omega)))
     exact r
-  | @pre top bp l o t n ep' l' o' K h1 h2 h3 h4 h5 h6 h7 _ ih =>
+  | @pre top bp l o t n ep' l' o' K h1 h2 h3 h4 h5 h6 h7 hav hnp _ ih =>
     intro hf
     exact Frames.pre (f := f') h1 h2 h3 h4
       (by rw [hf _ (by omega)]; exact h5) (by rw [hf _ (by omega)]; exact h6)
-      (by rw [hf _ (by omega)]; exact h7) (ih (fun i hi => hf i (by omega)))
+      (by rw [hf _ (by omega)]; exact h7)
+      (fun i a b => by rw [hf _ (by omega)]; exact hav i a b) hnp
+      (ih (fun i hi => hf i (by omega)))
+
+theorem Frames.has_ty {T : Typing} {e : Nat} {f : Nat → VCell} {top bp l o : Nat} {K : List FDesc}
+    (h : Frames V T e f top bp l o K) : ∃ t st, T l = some t ∧ stateAt t.tm o = some st := by
+  cases h with
+  | entry h1 _ h3 _ => exact ⟨_, _, h1, h3⟩
+  | frame h1 _ h3 => exact ⟨_, _, h1, h3⟩
+  | pre h1 _ h3 => exact ⟨_, _, h1, h3⟩
+
+/-- "the return point is not a prologue instruction" under a larger typing -/
+theorem Frames.np_mono {T T' : Typing} {e : Nat} {f : Nat → VCell} {top bp l o : Nat} {K : List FDesc}
+    (h : Frames V T e f top bp l o K) (hT : ∀ t, T l = some t → T' l = some t)
+    (hnp : ∀ t', T l = some t' → stateAt t'.tm o ≠ some .pre) :
+    ∀ t', T' l = some t' → stateAt t'.tm o ≠ some .pre := by
+  intro t' ht'
+  obtain ⟨t, _, ht, _⟩ := h.has_ty
+  have := hT t ht
+  rw [ht'] at this
+  have e : t' = t := Option.some.inj this
+  rw [e]
+  exact hnp t ht
 
 /-- more code objects never hurt -/
 theorem Frames.mono {T T' : Typing} {e : Nat} {f : Nat → VCell} {top bp l o : Nat} {K : List FDesc}
     (hT : ∀ l t, T l = some t → T' l = some t)
-    (h : Frames T e f top bp l o K) : Frames T' e f top bp l o K := by
+    (h : Frames V T e f top bp l o K) : Frames V T' e f top bp l o K := by
   induction h with
   | entry h1 h2 h3 h4 => exact .entry (hT _ _ h1) h2 h3 h4
-  | frame h1 h2 h3 h4 h5 h6 h7 h8 h9 _ ih => exact .frame (hT _ _ h1) h2 h3 h4 h5 h6 h7 h8 h9 ih
-  | pre h1 h2 h3 h4 h5 h6 h7 _ ih => exact .pre (hT _ _ h1) h2 h3 h4 h5 h6 h7 ih
+  | frame h1 h2 h3 h4 h5 h6 h7 h8 h9 hnd hav hnp hc ih =>
+    exact .frame (hT _ _ h1) h2 h3 h4 h5 h6 h7 h8 h9 hnd hav (hc.np_mono (hT _) hnp) ih
+  | pre h1 h2 h3 h4 h5 h6 h7 hav hnp hc ih =>
+    exact .pre (hT _ _ h1) h2 h3 h4 h5 h6 h7 hav (hc.np_mono (hT _) hnp) ih
+
+/-- a weaker value notion is implied (`fun _ => True`: the shape of the frame chain alone) -/
+theorem Frames.weaken {V' : VCell → Prop} (hV : ∀ v, V v → V' v) {T : Typing} {e : Nat} {f : Nat → VCell}
+    {top bp l o : Nat} {K : List FDesc} (h : Frames V T e f top bp l o K) : Frames V' T e f top bp l o K := by
+  induction h with
+  | entry h1 h2 h3 h4 => exact .entry h1 h2 h3 (h4.weaken hV)
+  | frame h1 h2 h3 h4 h5 h6 h7 h8 h9 hnd hav hnp _ ih =>
+    exact .frame h1 h2 h3 (h4.weaken hV) h5 h6 h7 h8 h9 hnd (fun i a b => hV _ (hav i a b)) hnp ih
+  | pre h1 h2 h3 h4 h5 h6 h7 hav hnp _ ih => exact .pre h1 h2 h3 h4 h5 h6 h7 (fun i a b => hV _ (hav i a b)) hnp ih
 
 /-- every live frame starts at or below `top` -/
 theorem Frames.e_le {T : Typing} {e : Nat} {f : Nat → VCell} {top bp l o : Nat} {K : List FDesc}
-    (h : Frames T e f top bp l o K) : e ≤ top := by
+    (h : Frames V T e f top bp l o K) : e ≤ top := by
   induction h with
   | entry _ _ _ h4 => exact h4.lo_le
-  | frame _ _ _ h4 _ _ _ _ _ _ ih => have := h4.lo_le; omega
-  | pre _ _ _ _ _ _ _ _ ih => omega
+  | frame _ _ _ h4 _ _ _ _ _ _ _ _ _ ih => have := h4.lo_le; omega
+  | pre _ _ _ _ _ _ _ _ _ _ ih => omega
 
 /-- Inversion for a frame whose current instruction is not a prologue instruction: the temporaries
     match, and the frame can be rebuilt with any new temporaries above the same base `lo`. -/
 theorem Frames.inv_body {T : Typing} {e : Nat} {f : Nat → VCell} {top bp l o : Nat} {K : List FDesc}
-    (h : Frames T e f top bp l o K) {t : LamTy} (ht : T l = some t) {st : AState}
+    (h : Frames V T e f top bp l o K) {t : LamTy} (ht : T l = some t) {st : AState}
     (hst : stateAt t.tm o = some st) (hne : st ≠ .pre) :
-    ∃ lo, MatchSt st f top lo ∧ (t.entry = true → lo = e) ∧ (t.entry = false → lo = bp + 4) ∧
+    ∃ lo, MatchSt V st f top lo ∧ (t.entry = true → lo = e) ∧ (t.entry = false → lo = bp + 4) ∧
       ∀ (f' : Nat → VCell) (top' o' : Nat) (st' : AState), (∀ i, i ≤ lo → f' i = f i) →
-        stateAt t.tm o' = some st' → MatchSt st' f' top' lo → Frames T e f' top' bp l o' K := by
+        stateAt t.tm o' = some st' → MatchSt V st' f' top' lo → Frames V T e f' top' bp l o' K := by
   cases h with
   | @entry _ _ _ _ t1 st1 h1 h2 h3 h4 =>
     have e1 : t1 = t := by rw [h1] at ht; exact Option.some.inj ht
@@ -214,7 +332,7 @@ theorem Frames.inv_body {T : Typing} {e : Nat} {f : Nat → VCell} {top bp l o :
     refine ⟨e, h4, fun _ => rfl, fun h' => (by rw [h2] at h'; cases h'), ?_⟩
     intro f' top' o' st' _ hs hm
     exact .entry h1 h2 hs hm
-  | @frame _ _ _ _ t1 st1 n ep' l' o' bp' K h1 h2 h3 h4 h5 h6 h7 h8 h9 h10 =>
+  | @frame _ _ _ _ t1 st1 n ep' l' o' bp' K h1 h2 h3 h4 h5 h6 h7 h8 h9 hnd hav hnp h10 =>
     have e1 : t1 = t := by rw [h1] at ht; exact Option.some.inj ht
     subst e1
     have e2 : st1 = st := by rw [h3] at hst; exact Option.some.inj hst
@@ -223,9 +341,10 @@ theorem Frames.inv_body {T : Typing} {e : Nat} {f : Nat → VCell} {top bp l o :
     intro f' top' o' st' hf hs hm
     exact Frames.frame (f := f') h1 h2 hs hm
       (by rw [hf _ (by omega)]; exact h5) (by rw [hf _ (by omega)]; exact h6)
-      (by rw [hf _ (by omega)]; exact h7) (by rw [hf _ (by omega)]; exact h8) h9
+      (by rw [hf _ (by omega)]; exact h7) (by rw [hf _ (by omega)]; exact h8) h9 hnd
+      (fun i a b => by rw [hf _ (by omega)]; exact hav i a b) hnp
       (h10.congr (fun i hi => hf i (by omega)))
-  | @pre _ _ _ _ t1 n ep' l' o' K h1 h2 h3 h4 h5 h6 h7 h8 =>
+  | @pre _ _ _ _ t1 n ep' l' o' K h1 h2 h3 h4 h5 h6 h7 hav hnp h8 =>
     have e1 : t1 = t := by rw [h1] at ht; exact Option.some.inj ht
     subst e1
     rw [h3] at hst
@@ -233,24 +352,45 @@ theorem Frames.inv_body {T : Typing} {e : Nat} {f : Nat → VCell} {top bp l o :
 
 /-- Inversion for a complete frame (procedure code, not in the prologue): the header is intact -/
 theorem Frames.inv_frame {T : Typing} {e : Nat} {f : Nat → VCell} {top bp l o : Nat} {K : List FDesc}
-    (h : Frames T e f top bp l o K) {t : LamTy} (ht : T l = some t) (hent : t.entry = false) {st : AState}
+    (h : Frames V T e f top bp l o K) {t : LamTy} (ht : T l = some t) (hent : t.entry = false) {st : AState}
     (hst : stateAt t.tm o = some st) (hne : st ≠ .pre) :
-    ∃ n ep' l' o' bp' K', MatchSt st f top (bp + 4) ∧
+    ∃ n ep' l' o' bp' K', MatchSt V st f top (bp + 4) ∧
       f (bp + 1) = .argc n ∧ f (bp + 2) = .envPtr ep' ∧ f (bp + 3) = .instrPtr l' o' ∧
-      f (bp + 4) = .basePtr bp' ∧ n ≤ bp ∧ Frames T e f (bp - n) bp' l' o' K' ∧
+      f (bp + 4) = .basePtr bp' ∧ n ≤ bp ∧ Frames V T e f (bp - n) bp' l' o' K' ∧
       K = ⟨bp + 1 - n, .envPtr ep', .instrPtr l' o', bp'⟩ :: K' := by
   cases h with
   | @entry _ _ _ _ t1 st1 h1 h2 h3 h4 =>
     have e1 : t1 = t := by rw [h1] at ht; exact Option.some.inj ht
     subst e1
     rw [h2] at hent; cases hent
-  | @frame _ _ _ _ t1 st1 n ep' l' o' bp' K h1 h2 h3 h4 h5 h6 h7 h8 h9 h10 =>
+  | @frame _ _ _ _ t1 st1 n ep' l' o' bp' K h1 h2 h3 h4 h5 h6 h7 h8 h9 hnd hav hnp h10 =>
     have e1 : t1 = t := by rw [h1] at ht; exact Option.some.inj ht
     subst e1
     have e2 : st1 = st := by rw [h3] at hst; exact Option.some.inj hst
     subst e2
     exact ⟨n, ep', l', o', bp', K, h4, h5, h6, h7, h8, h9, h10, rfl⟩
-  | @pre _ _ _ _ t1 n ep' l' o' K h1 h2 h3 h4 h5 h6 h7 h8 =>
+  | @pre _ _ _ _ t1 n ep' l' o' K h1 h2 h3 h4 h5 h6 h7 hav hnp h8 =>
+    have e1 : t1 = t := by rw [h1] at ht; exact Option.some.inj ht
+    subst e1
+    rw [h3] at hst
+    exact absurd (Option.some.inj hst).symm hne
+
+/-- the argument cells of a complete frame: as many as its code addresses, each a value -/
+theorem Frames.inv_args {T : Typing} {e : Nat} {f : Nat → VCell} {top bp l o : Nat} {K : List FDesc}
+    (h : Frames V T e f top bp l o K) {t : LamTy} (ht : T l = some t) (hent : t.entry = false) {st : AState}
+    (hst : stateAt t.tm o = some st) (hne : st ≠ .pre) :
+    ∃ n l' o', f (bp + 1) = .argc n ∧ f (bp + 3) = .instrPtr l' o' ∧ n ≤ bp ∧ argNeed t.bc ≤ n ∧
+      (∀ i, bp - n < i → i ≤ bp → V (f i)) ∧ ∀ t', T l' = some t' → stateAt t'.tm o' ≠ some .pre := by
+  cases h with
+  | @entry _ _ _ _ t1 st1 h1 h2 h3 h4 =>
+    have e1 : t1 = t := by rw [h1] at ht; exact Option.some.inj ht
+    subst e1
+    rw [h2] at hent; cases hent
+  | @frame _ _ _ _ t1 st1 n ep' l' o' bp' K h1 h2 h3 h4 h5 h6 h7 h8 h9 hnd hav hnp h10 =>
+    have e1 : t1 = t := by rw [h1] at ht; exact Option.some.inj ht
+    subst e1
+    exact ⟨n, l', o', h5, h7, h9, hnd, hav, hnp⟩
+  | @pre _ _ _ _ t1 n ep' l' o' K h1 h2 h3 h4 h5 h6 h7 hav hnp h8 =>
     have e1 : t1 = t := by rw [h1] at ht; exact Option.some.inj ht
     subst e1
     rw [h3] at hst
@@ -258,10 +398,10 @@ theorem Frames.inv_frame {T : Typing} {e : Nat} {f : Nat → VCell} {top bp l o 
 
 /-- Inversion at a prologue instruction -/
 theorem Frames.inv_pre {T : Typing} {e : Nat} {f : Nat → VCell} {top bp l o : Nat} {K : List FDesc}
-    (h : Frames T e f top bp l o K) {t : LamTy} (ht : T l = some t)
+    (h : Frames V T e f top bp l o K) {t : LamTy} (ht : T l = some t)
     (hst : stateAt t.tm o = some .pre) :
     t.entry = false ∧ ∃ n ep' l' o' K', n + 3 ≤ top ∧ f top = .instrPtr l' o' ∧ f (top - 1) = .envPtr ep' ∧
-      f (top - 2) = .argc n ∧ Frames T e f (top - 3 - n) bp l' o' K' ∧
+      f (top - 2) = .argc n ∧ Frames V T e f (top - 3 - n) bp l' o' K' ∧
       K = ⟨top - 2 - n, .envPtr ep', .instrPtr l' o', bp⟩ :: K' := by
   cases h with
   | @entry _ _ _ _ t1 st1 h1 h2 h3 h4 =>
@@ -271,17 +411,87 @@ theorem Frames.inv_pre {T : Typing} {e : Nat} {f : Nat → VCell} {top bp l o : 
     have := Option.some.inj hst
     subst this
     exact h4.elim
-  | @frame _ _ _ _ t1 st1 n ep' l' o' bp' K h1 h2 h3 h4 h5 h6 h7 h8 h9 h10 =>
+  | @frame _ _ _ _ t1 st1 n ep' l' o' bp' K h1 h2 h3 h4 h5 h6 h7 h8 h9 hnd hav hnp h10 =>
     have e1 : t1 = t := by rw [h1] at ht; exact Option.some.inj ht
     subst e1
     rw [h3] at hst
     have := Option.some.inj hst
     subst this
     exact h4.elim
-  | @pre _ _ _ _ t1 n ep' l' o' K h1 h2 h3 h4 h5 h6 h7 h8 =>
+  | @pre _ _ _ _ t1 n ep' l' o' K h1 h2 h3 h4 h5 h6 h7 hav hnp h8 =>
     have e1 : t1 = t := by rw [h1] at ht; exact Option.some.inj ht
     subst e1
     exact ⟨h2, n, ep', l', o', K, h4, h5, h6, h7, h8, rfl⟩
+
+/-- the argument block of a frame under construction holds values -/
+theorem Frames.inv_pre_args {T : Typing} {e : Nat} {f : Nat → VCell} {top bp l o : Nat} {K : List FDesc}
+    (h : Frames V T e f top bp l o K) {t : LamTy} (ht : T l = some t)
+    (hst : stateAt t.tm o = some .pre) :
+    ∃ n l' o', f (top - 2) = .argc n ∧ f top = .instrPtr l' o' ∧ n + 3 ≤ top ∧
+      (∀ i, top - 3 - n < i → i ≤ top - 3 → V (f i)) ∧ ∀ t', T l' = some t' → stateAt t'.tm o' ≠ some .pre := by
+  cases h with
+  | @entry _ _ _ _ t1 st1 h1 h2 h3 h4 =>
+    have e1 : t1 = t := by rw [h1] at ht; exact Option.some.inj ht
+    subst e1
+    rw [h3] at hst
+    have := Option.some.inj hst
+    subst this
+    exact h4.elim
+  | @frame _ _ _ _ t1 st1 n ep' l' o' bp' K h1 h2 h3 h4 h5 h6 h7 h8 h9 hnd hav hnp h10 =>
+    have e1 : t1 = t := by rw [h1] at ht; exact Option.some.inj ht
+    subst e1
+    rw [h3] at hst
+    have := Option.some.inj hst
+    subst this
+    exact h4.elim
+  | @pre _ _ _ _ t1 n ep' l' o' K h1 h2 h3 h4 h5 h6 h7 hav hnp h8 =>
+    exact ⟨n, l', o', h7, h5, h4, hav, hnp⟩
+
+/-! ## `argNeed` -/
+
+def argStep (m : Nat) (c : VCell) : Nat :=
+  match c with
+  | .bpOffset off => max m ((-off).toNat + 1)
+  | _ => m
+
+theorem argNeed_eq (bc : List VCell) : argNeed bc = bc.foldl argStep 0 := rfl
+
+theorem foldl_argStep_ge : ∀ (bc : List VCell) (m : Nat), m ≤ bc.foldl argStep m := by
+  intro bc
+  induction bc with
+  | nil => intro m; exact Nat.le_refl _
+  | cons c bc ih =>
+    intro m
+    simp only [List.foldl_cons]
+    refine Nat.le_trans ?_ (ih _)
+    unfold argStep
+    split
+    · exact Nat.le_max_left _ _
+    · exact Nat.le_refl _
+
+theorem foldl_argStep_mem : ∀ (bc : List VCell) (m j : Nat) (off : Int),
+    bc[j]? = some (.bpOffset off) → (-off).toNat + 1 ≤ bc.foldl argStep m := by
+  intro bc
+  induction bc with
+  | nil => intro m j off h; simp at h
+  | cons c bc ih =>
+    intro m j off h
+    simp only [List.foldl_cons]
+    cases j with
+    | zero =>
+      simp only [List.getElem?_cons_zero, Option.some.injEq] at h
+      subst h
+      refine Nat.le_trans ?_ (foldl_argStep_ge _ _)
+      simp only [argStep]
+      exact Nat.le_max_right _ _
+    | succ j =>
+      simp only [List.getElem?_cons_succ] at h
+      exact ih _ j off h
+
+/-- a `BasePointerOffset(off)` cell of the code addresses one of the `argNeed` topmost argument cells -/
+theorem argNeed_ge {bc : List VCell} {j : Nat} {off : Int} (h : bc[j]? = some (.bpOffset off)) :
+    (-off).toNat + 1 ≤ argNeed bc := by
+  rw [argNeed_eq]; exact foldl_argStep_mem bc 0 j off h
 
 /-! ## the verifier's guarantees -/
 
